@@ -38,7 +38,7 @@ func checkC08(c *Ctx) {
 		if fn := p.Func(pk, "Element", "SetBytesCanonical"); fn != nil {
 			RequireFacts(c, p, "C08.guard", fn, AcceptNilErr, nil, []Req{
 				{"LenEq(Bytes)", `^\d+ == len\(p0\)$`},
-				{"Canonical(ByteOrder.Element)", `^noerr (bigEndian|littleEndian)\.Element\(`},
+				{"Canonical(ByteOrder.Element)", `^noerr (bigEndian|littleEndian|ByteOrder)\.Element\(`},
 			})
 		} else {
 			c.Undecided("anchor %s.Element.SetBytesCanonical not found", pk)
@@ -47,7 +47,7 @@ func checkC08(c *Ctx) {
 			RequireFacts(c, p, "C08.guard", fn, AcceptNilErr, nil, []Req{
 				{"LengthPrefixRead", `^noerr io\.ReadFull\(p0,(.*\[:4\]|local:\[4\]byte)\)`},
 				{"ElementRead", `^noerr io\.ReadFull\(p0,local:\[\d+\]byte(\[:\])?\)$`},
-				{"Canonical(ByteOrder.Element)", `^noerr (bigEndian|littleEndian)\.Element\(`},
+				{"Canonical(ByteOrder.Element)", `^noerr (bigEndian|littleEndian|ByteOrder)\.Element\(`},
 			})
 		}
 		if fn := p.Func(pk, "Vector", "AsyncReadFrom"); fn != nil {
@@ -140,7 +140,16 @@ func checkAsyncValidation(c *Ctx, p *Program, fn *ssa.Function) {
 	for _, b := range worker.Blocks {
 		for _, in := range b.Instrs {
 			call, ok := in.(*ssa.Call)
-			if !ok || calleeOf(&call.Call).Name != "smallerThanModulus" {
+			if !ok {
+				continue
+			}
+			// the canonicity test: smallerThanModulus on the decoded limbs, or one of the strict
+			// decoders of the package (ByteOrder.Element, SetBytesCanonical) whose error says the same
+			switch cl := calleeOf(&call.Call); {
+			case cl.Name == "smallerThanModulus":
+			case cl.Name == "Element" && (cl.Recv == "bigEndian" || cl.Recv == "littleEndian" || cl.Recv == "ByteOrder"):
+			case cl.Name == "SetBytesCanonical":
+			default:
 				continue
 			}
 			for _, fb := range failingSuccessors(call) {
@@ -156,7 +165,7 @@ func checkAsyncValidation(c *Ctx, p *Program, fn *ssa.Function) {
 			}
 		}
 	}
-	c.Ob("C08.async", pkg, fk, "worker-counts-non-canonical", p.Pos(worker.Pos()), okA, fk+": a non-canonical element (smallerThanModulus false) does not increment the error counter in the parallel worker")
+	c.Ob("C08.async", pkg, fk, "worker-counts-non-canonical", p.Pos(worker.Pos()), okA, fk+": a non-canonical element (smallerThanModulus false / strict decoder error) does not increment the error counter in the parallel worker")
 	// also: the store of the element happens only on the success side (the failing side returns)
 	// (b) collector: close(ch) without send only if counter == 0
 	okB := false
